@@ -241,15 +241,18 @@ def run_shard(mod, tier, seed, shard, budget):
 
     # exhaustive part (enumerated by the same harness, split across shards)
     ex = getattr(mod, "exhaustive", None)
+    stride = budget.get("exhaustive_stride", 1)
     if ex is not None:
         for i, case in enumerate(ex(tier)):
-            if i % nshards != shard:
+            if i % nshards != shard % nshards or (i // nshards) % stride:
                 continue
+            if stride > 1 and time.time() > deadline:
+                break
             try:
                 _evaluate(mod, case, stats, known)
             except Violation:
                 return stats  # exhaustive enumeration: first failure is already a plain case
-        stats.exhaustive_done = True
+        stats.exhaustive_done = stride == 1
 
     strat = mod.strategy(tier) if getattr(mod, "strategy", None) else None
     n = budget.get("examples", 0)
@@ -321,13 +324,69 @@ def _shard_entry(args):
 # ---------------------------------------------------------------- driver
 
 
-def write_replay(prop, case, sub_check, message, detail=None):
+SWEEP_ENV_KEYS = ("PYTHONOPTIMIZE", "PYTHONHASHSEED", "PANDAS_COPY_ON_WRITE")
+
+
+def sweep_env(seed):
+    """the other process configuration every check is also run under: assert statements stripped (python -O), another
+    string-hash seed (set / dict iteration order of strings) and pandas' copy-on-write mode switched on by its documented
+    environment variable"""
+    return {"PYTHONOPTIMIZE": "1", "PYTHONHASHSEED": str(1 + (seed * 7919) % 4000), "PANDAS_COPY_ON_WRITE": "1"}
+
+
+def sweep_budget(budget):
+    return dict(budget, examples=max(10, budget.get("examples", 0) // 8), max_s=max(15, budget.get("max_s", 60) // 5), shards=1, exhaustive_stride=8)
+
+
+def envsweep_child(mod, tier, seed, outfile):
+    """(internal) one shard with a reduced budget in the interpreter configuration this process was started in"""
+    import pickle
+
+    stats = run_shard(mod, tier, seed, 90, sweep_budget(dict(mod.budgets(tier))))
+    with open(outfile, "wb") as f:
+        pickle.dump({"evaluations": stats.evaluations, "nontrivial": len(stats.nontrivial), "skipped": stats.skipped, "failures": stats.failures, "timed_out": stats.timed_out, "optimize": sys.flags.optimize, "hashseed": os.environ.get("PYTHONHASHSEED")}, f)
+    return 0
+
+
+def run_envsweep(mod, tier, seed, budget):
+    """run envsweep_child in a fresh interpreter under sweep_env(seed); returns its summary dict (or None if switched off)"""
+    import pickle
+    import subprocess
+    import tempfile
+
+    if os.environ.get("VERIF_NO_ENVSWEEP") or not getattr(mod, "ENV_SWEEP", True):
+        return None
+    env = dict(os.environ)
+    env.update(sweep_env(seed))
+    fd, out = tempfile.mkstemp(prefix="envsweep_", suffix=".pkl")
+    os.close(fd)
+    try:
+        cmd = [sys.executable, os.path.join(ROOT, "run_check.py"), mod.ID, "--tier", tier, "--seed", str(seed), "--envsweep", out]
+        try:
+            p = subprocess.run(cmd, env=env, stdout=subprocess.PIPE, stderr=subprocess.PIPE, timeout=sweep_budget(budget)["max_s"] * 4 + 180)
+        except subprocess.TimeoutExpired:
+            return {"evaluations": 0, "nontrivial": 0, "skipped": 0, "failures": [], "timed_out": True, "inconclusive": "time limit of the configuration sweep reached"}
+        if p.returncode != 0:
+            raise HarnessError("interpreter-configuration sweep failed (rc %d): %s" % (p.returncode, p.stderr.decode(errors="replace")[-1500:]))
+        with open(out, "rb") as f:
+            r = pickle.load(f)
+        if str(r.get("optimize")) != "1" or r.get("hashseed") != env["PYTHONHASHSEED"]:
+            raise HarnessError("interpreter-configuration sweep ran under the wrong configuration: %r" % (r,))
+        return r
+    finally:
+        try:
+            os.remove(out)
+        except OSError:
+            pass
+
+
+def write_replay(prop, case, sub_check, message, detail=None, env=None):
     d = os.path.join(OUT, "replays", "found")
     os.makedirs(d, exist_ok=True)
     path = os.path.join(d, "%s-%s.json" % (prop, case_hash(case)))
     with open(path, "w") as f:
         json.dump(
-            {"property": prop, "sub_check": sub_check, "message": message, "detail": detail, "case": case},
+            dict({"property": prop, "sub_check": sub_check, "message": message, "detail": detail, "case": case}, **({"env": env} if env else {})),
             f,
             indent=1,
             allow_nan=True,
@@ -370,10 +429,11 @@ def main_run(mod, tier, seed, replay=None):
     known = load_known(mod.ID)
     if replay:
         v = replay_file(mod, replay, known)
+        conf = " (python -O, PYTHONHASHSEED=%s, PANDAS_COPY_ON_WRITE=%s)" % (os.environ.get("PYTHONHASHSEED"), os.environ.get("PANDAS_COPY_ON_WRITE")) if sys.flags.optimize else ""
         if v is None:
-            print("replay passed: %s" % replay)
+            print("replay passed%s: %s" % (conf, replay))
             return 0
-        print("replay failed: %s" % v)
+        print("replay failed%s: %s" % (conf, v))
         print("VIOLATION property=%s replay=%s" % (mod.ID, os.path.abspath(replay)))
         return 1
 
@@ -406,6 +466,17 @@ def main_run(mod, tier, seed, replay=None):
         total.merge(r)
         exhaustive = exhaustive and r.exhaustive_done
 
+    # the same check, reduced budget, in a fresh interpreter with assert statements stripped and another string-hash seed
+    sweep = None
+    sweep_failure = None
+    if replay_violation is None and not total.failures:
+        sweep = run_envsweep(mod, tier, seed, budget)
+        if sweep:
+            total.extra["interpreter_config_sweep.evaluations"] += sweep["evaluations"]
+            total.extra["interpreter_config_sweep.nontrivial"] += sweep["nontrivial"]
+            if sweep["failures"]:
+                sweep_failure = sorted(sweep["failures"], key=lambda t: t[0])[0]
+
     violations = 0
     rc = 0
     lines = []
@@ -424,6 +495,14 @@ def main_run(mod, tier, seed, replay=None):
         violations = len({f[2] for f in total.failures})
         rc = 1
         lines.append("violation [%s]: %s" % (sub, msg))
+        lines.append("VIOLATION property=%s replay=%s" % (mod.ID, path))
+    elif sweep_failure is not None:
+        _, case, sub, msg, detail = sweep_failure
+        env = sweep_env(seed)
+        path = write_replay(mod.ID, case, sub, msg, detail, env=env)
+        violations = 1
+        rc = 1
+        lines.append("violation [%s] (under python -O, PYTHONHASHSEED=%s, PANDAS_COPY_ON_WRITE=1): %s" % (sub, env["PYTHONHASHSEED"], msg))
         lines.append("VIOLATION property=%s replay=%s" % (mod.ID, path))
     wall = time.time() - t0
     write_evidence(mod, tier, seed, total, wall, violations, exhaustive, n_replays, budget)
